@@ -369,6 +369,24 @@ impl Core {
             .collect()
     }
 
+    /// what the receiver has to hold of the object without a writer exceeds object_max_cache_size: the bytes of all its
+    /// blocks (in-band FTI: block allocation), the datagrams of one whole transfer (FDT-only OTI: packet cache)
+    fn larger_than_cache(&self, s: &Session, oi: &ObjInfo) -> bool {
+        let cache = self.cache_bytes(s);
+        if oi.oti.ifti {
+            self.block_bytes(oi).iter().sum::<u128>() > cache
+        } else {
+            let mut seen: BTreeSet<(u32, u32)> = BTreeSet::new();
+            let mut bytes = 0u128;
+            for d in s.stream.iter().filter(|d| Some(d.toi) == oi.toi) {
+                if seen.insert((d.sbn, d.esi)) {
+                    bytes += d.data.len() as u128;
+                }
+            }
+            bytes >= cache
+        }
+    }
+
     /// D32: before the FDT instance completes (fed position `fpos`) the receiver had to hold more of the
     /// object than object_max_cache_size allows - in-band FTI: a third or later block cannot be allocated
     /// next to the blocks already held (no writer yet, nothing is written); FDT-only OTI: the packet cache
@@ -653,7 +671,7 @@ impl Core {
                 "C02:D3-close-flag-early"
             } else if first_b.is_some() && fpos.unwrap() > first_b.unwrap() {
                 "C02:fdt-after-close"
-            } else if self.block_bytes(oi).iter().sum::<u128>() > self.cache_bytes(s) && self.held_before_fdt_exceeds_cache(s, oi, sel, fpos.unwrap()) {
+            } else if self.larger_than_cache(s, oi) && self.held_before_fdt_exceeds_cache(s, oi, sel, fpos.unwrap()) {
                 "C02:object-larger-than-cache-before-fdt"
             } else {
                 "C02:not-delivered"
@@ -711,7 +729,8 @@ impl Core {
                     (None, Some(_)) => true,
                     _ => false,
                 };
-                let cls = if total > self.cache_bytes(s) && only_oe && (mid_transfer || before_fdt) {
+                let _ = total;
+                let cls = if self.larger_than_cache(s, oi) && only_oe && (mid_transfer || before_fdt) {
                     "C16:object-larger-than-cache"
                 } else {
                     "C16:not-delivered"
